@@ -597,6 +597,7 @@ fn verif_entry() {
     match mode.as_str() {
         "expand" => mode_expand(&std::fs::read_to_string(&inp).expect("input file"), &mut out),
         "extract" => mode_extract(&inp, &mut out),
+        "ast" => mode_ast(&inp, &mut out),
         "scan" => mode_scan(&std::fs::read_to_string(&inp).expect("input file"), &mut out),
         "" => {}
         m => panic!("unknown VERIF_HOOK_MODE {}", m),
